@@ -26,7 +26,7 @@ fn usage() -> ExitCode {
 
 fn main() -> ExitCode {
     let args: Vec<String> = std::env::args().collect();
-    if args.len() < 3 {
+    if args.len() < 3 && !(args.len() == 2 && args[1] == "--warm") {
         return usage();
     }
     if args[1] == "--worker" {
@@ -34,6 +34,24 @@ fn main() -> ExitCode {
     }
     if args[1] == "--one" {
         return one(&args[2]);
+    }
+    if args[1] == "--warm" {
+        // build the generated-declaration crates once so that later runs only recompile what changed
+        for id in ["C09", "C11", "C12"] {
+            let c = checks::find(id).unwrap();
+            if let Some(p) = c.prepare {
+                match p(Tier::Quick, 0, Path::new("/verif/harness/run")) {
+                    Ok(v) => println!("warm {}: {}", id, v),
+                    Err(checks::PrepError::Inconclusive(e)) => println!("warm {}: inconclusive: {}", id, e),
+                    Err(checks::PrepError::Violation(f)) => println!("warm {}: {}", id, f.observed),
+                }
+            }
+        }
+        return ExitCode::SUCCESS;
+    }
+    if args[1] == "--make-corpus" {
+        checks::c03::make_corpus(&args[2], args.get(3).and_then(|n| n.parse().ok()).unwrap_or(300));
+        return ExitCode::SUCCESS;
     }
     let id = args[1].as_str();
     if checks::find(id).is_none() {
@@ -441,7 +459,8 @@ fn parent(id: &str, tier: Tier) -> ExitCode {
     // 6. evidence
     let wall = t0.elapsed().as_secs_f64();
     let mut coverage = BTreeMap::new();
-    coverage.insert("evaluations".to_string(), json!(merged.evaluations + regress_n));
+    let extra = prep_info.get("extra_evaluations").and_then(|v| v.as_u64()).unwrap_or(0);
+    coverage.insert("evaluations".to_string(), json!(merged.evaluations + regress_n + extra));
     coverage.insert("distinct_nontrivial".to_string(), json!(fps.len()));
     coverage.insert("rule".to_string(), json!(check.rule));
     let mut samples = merged.samples.clone();
@@ -498,7 +517,7 @@ fn parent(id: &str, tier: Tier) -> ExitCode {
         id,
         tier.name(),
         seed,
-        merged.evaluations + regress_n,
+        merged.evaluations + regress_n + extra,
         fps.len(),
         merged.skipped_unspecified,
         wall
